@@ -5,8 +5,8 @@
   * the demonstration must FAIL with the patch and PASS without it,
 then copies patch.diff, demo.rs and an extended meta.json to /verif/seeded/<P>-<k>/."""
 import json, os, shutil, subprocess, sys
-WT = "/tmp/wt/confirm"
-ENV = dict(os.environ, CARGO_NET_OFFLINE="true", CARGO_TARGET_DIR="/tmp/wt/confirm-target")
+WT = os.environ.get("SEED_CONFIRM_WT", "/tmp/wt/confirm")
+ENV = dict(os.environ, CARGO_NET_OFFLINE="true", CARGO_TARGET_DIR=WT + "-target")
 
 def sh(cmd, cwd=WT):
     p = subprocess.run(cmd, cwd=cwd, env=ENV, shell=True, stdout=subprocess.PIPE, stderr=subprocess.STDOUT, text=True)
@@ -59,6 +59,8 @@ def main():
                 dst_demo, democmd = "minicbor-serde/tests/seed_demo.rs", f"cargo test -p minicbor-serde {feats}--test seed_demo --offline"
             else:
                 dst_demo, democmd = "minicbor-tests/tests/seed_demo.rs", "cargo test -p minicbor-tests --features std,derive --test seed_demo --offline"
+            if os.environ.get("SEED_DEMO_CMD"):       # a demonstration that needs its own command (release build, other features)
+                dst_demo, democmd = os.environ["SEED_DEMO_DST"], os.environ["SEED_DEMO_CMD"]
             os.makedirs(os.path.dirname(os.path.join(WT, dst_demo)), exist_ok=True)
             shutil.copy(os.path.join(sd, "demo.rs"), os.path.join(WT, dst_demo))
             rc1, out1 = sh(democmd + " 2>&1")
@@ -79,7 +81,7 @@ def main():
             meta["confirmed_by_lead"] = {
                 "worktree": "scratch git worktree of /repo at its HEAD (removed afterwards)",
                 "ran": [f"git apply patch.diff; cargo test --workspace --no-fail-fast --offline -> {sp} passed, {sf} failed",
-                        f"demo.rs copied to minicbor-tests/tests/seed_demo.rs; cargo test -p minicbor-tests --features std,derive --test seed_demo --offline with the patch -> exit {rc1} ({p1} passed, {f1} failed)",
+                        f"demo.rs copied to {dst_demo}; {democmd} with the patch -> exit {rc1} ({p1} passed, {f1} failed)",
                         f"same command after `git checkout -- .` (patch removed) -> exit {rc2} ({p2} passed, {f2} failed)"]}
             json.dump(meta, open(os.path.join(dst, "meta.json"), "w"), indent=1)
     sh("git checkout -q -- . && git clean -fdq")
